@@ -251,7 +251,66 @@ def run_enum(case):
     return run_case({'packet': pc, 'kl_cut': 0, 'muts': muts})
 
 
+def run_sig_edge(case):
+    """Signature values with a leading 0x00 octet (1 in 256 of RSA / HMAC / digest signatures): the value with that octet removed,
+    or with another 0x00 in front, is a DIFFERENT SignatureValue and must be rejected by every matching verifier."""
+    r = Result()
+    spec = case['signer']
+    skind = spec['kind']
+    base = [p for p in _small_packets() if p['kind'] == case['kind']][0]
+    found = None
+    for c in range(case['start'], case['start'] + 1500):
+        pc = dict(base, signer=spec, payload={'hex': (b'n%d' % c).hex()})
+        exp, wire, payload, signer, _fn = build(pc)
+        s0 = _strict(pc['kind'], wire)
+        if s0['sig_value'][:1] == b'\x00':
+            found = (pc, exp, wire, payload, s0)
+            break
+    if found is None:
+        r.discarded = True
+        return r
+    pc, exp, wire, payload, s0 = found
+    kl = S.name_comps(spec['kl']) if spec.get('kl') is not None else []
+    name, _p, _c, sig = _parse(pc['kind'], wire)
+    for label, v in lib_verdicts(spec, name, sig, kl[:1]).items():
+        if v is not True:
+            r.bad(f'C02/original-rejected/{pc["kind"]}/{label}', f'{v} (signature starts with 00)')
+    stripped = s0['sig_value'].lstrip(b'\x00')
+    for what, newsig in (('leading-zero-removed', s0['sig_value'][1:]), ('all-leading-zeros-removed', stripped),
+                         ('zero-prepended', b'\x00' + s0['sig_value'])):
+        mw, _sp, _f = exp.assemble(payload, newsig)
+        try:
+            mname, _mp, _mc, msig = _parse(pc['kind'], mw)
+            s1 = _strict(pc['kind'], mw)
+        except Exception as e:
+            return r.bad('C02/harness/sig-edge-mutant-does-not-parse', f'{e!r}')
+        if s1['signed'] != s0['signed']:
+            return r.bad('C02/harness/sig-edge-mutant-changes-signed-portion', '')
+        for label, v in lib_verdicts(spec, mname, msig, kl[:1]).items():
+            if v is True:
+                r.bad(f'C02/tamper-accepted/{pc["kind"]}/{label}/{what}', f'SignatureValue {s0["sig_value"][:6].hex()}.. ({len(s0["sig_value"])} octets) '
+                      f'replaced by {newsig[:6].hex()}.. ({len(newsig)} octets)')
+    r.key = (pc['kind'], skind, spec.get('key'))
+    r.classes = (pc['kind'], f'signer:{skind}', 'signature-with-leading-zero')
+    return r
+
+
+def _sig_edge_cases(tier):
+    kl = [[8, '6b']]
+    specs = [{'kind': 'rsa', 'kl': kl, 'key': 'rsa1024-0'}, {'kind': 'rsa', 'kl': kl, 'key': 'rsa1024-1'},
+             {'kind': 'hmac', 'kl': kl, 'hkey': '0102'}, {'kind': 'digest'}]
+    if tier == 'thorough':
+        specs += [{'kind': 'rsa', 'kl': kl, 'key': 'rsa2048-0'}, {'kind': 'rsa', 'kl': kl, 'key': 'rsa1028-0'}]
+    for sp in specs:
+        for kind in ('data', 'interest'):
+            for start in ((0, 2000) if tier == 'quick' else (0, 2000, 4000, 6000, 8000)):
+                yield {'signer': sp, 'kind': kind, 'start': start}
+
+
 SUBCHECKS = {
+    'sig-edge': SubCheck(run_sig_edge, enumerate=_sig_edge_cases, exhaustive={'quick': False, 'thorough': False},
+                         note='packets searched for a SignatureValue starting with 0x00 (RSA, HMAC, digest); that octet removed / '
+                              'another one prepended must be rejected'),
     'offsets': SubCheck(run_enum, enumerate=_enum, exhaustive={'quick': False, 'thorough': True},
                         note='every byte offset of 10 small packets (5 signer kinds x Data/Interest) x substituted values '
                              '(thorough: all 255 for digest/HMAC, 6 for Ed25519/ECDSA/RSA; quick: 1-2 values)'),
